@@ -165,7 +165,7 @@ TreeDetail(e, t) ==
 Args(e) == [k \in DOMAIN e \ {"live", "disk", "reply"} |-> e[k]]
 
 Detail(e, t, pre, f) ==
-  [fails |-> f,
+  [fails |-> f, stale |-> FALSE,
    list |-> IF "list" \in f THEN ListDetail(e, t) ELSE [paths |-> {}],
    children |-> IF "children" \in f THEN ChildDetail(e, t, pre) ELSE [nodes |-> {}],
    reload |-> IF "reload" \in f THEN ReloadDetail(e, t) ELSE [unloadable |-> FALSE],
@@ -269,12 +269,35 @@ DeleteThread(s) == /\ nodes' = DelArtTreeRec(s) /\ disk' = nodes'
                    /\ out' = [op |-> "delart", path |-> s.path, id |-> s.id, hit |-> TRUE, thread |-> TRUE]
                    /\ UNCHANGED uname
 
+(* A request addressed below a path that does not exist (News!Stale): the model keeps everything as it is, and so must
+   the server - answered or not (the implementation drops the connection for create and post).  Judged like any other
+   step, against the unchanged tree: no component of the missing path may show up in a listing, on a fresh connection
+   or in the file. *)
+StaleFails(e) ==
+  LET lf == UNION {NodeFails(e, n, nodes, nodes) : n \in Range(e.live.nodes)}
+            \cup (IF DOMAIN nodes \cup {<<>>} \subseteq {n.path : n \in Range(e.live.nodes)} THEN {} ELSE {"obs-incomplete"})
+            \cup (IF e.anom # <<>> THEN {"anomaly"} ELSE {})
+  IN lf \cup (IF lf \cap TreeTags = {} /\ ~DiskOK(e.disk, nodes) THEN {"reload"} ELSE {})
+
+StaleEv(e, s) ==
+  /\ Apply(s)
+  /\ LET f == StaleFails(e)
+         viol == f \cap ViolTags
+         fresh == {x \in viol : <<e.run, x>> \notin seen}
+     IN IF Drifted(e) \/ f = {} THEN seen' = seen
+        ELSE IF viol # {}
+          THEN /\ (fresh # {} => Report("VIOL", e, [Detail(e, nodes, nodes, fresh) EXCEPT !.stale = TRUE]))
+               /\ seen' = seen \cup {<<e.run, x>> : x \in viol}
+          ELSE /\ Report("DRIFT", e, Detail(e, nodes, nodes, f))
+               /\ seen' = seen \cup {<<e.run, "drift">>}
+
 StepEv ==
   LET e == Log[l]
       s == StepOf(e)
   IN
   /\ e.op # "world"
-  /\ IF Unanswered(e) THEN UnansweredEv(e, s)
+  /\ IF ~e.ended /\ Stale(s) THEN StaleEv(e, s)
+     ELSE IF Unanswered(e) THEN UnansweredEv(e, s)
      ELSE IF ~Guard(s) \/ (e.op = "reload" /\ ~e.ok)
        THEN (* not a step of the model: the script should not contain it (or the file could not be loaded: the
                disk view of the previous step has already said so) *)
